@@ -123,6 +123,16 @@ def run_tfel_check(cmps, sub, area=False):
     return rc, v, (endv.group(1) if endv else None), out, txt
 
 
+def negated(c, first):
+    """the same comparison with both data columns negated (abscissae unchanged)"""
+    d = dict(c)
+    d["a"] = [fmt(-val(x)) for x in c["a"]]
+    d["b"] = [fmt(-val(x)) for x in c["b"]]
+    if first:
+        d["reuse"] = False  # the mirrored group starts under its own @TestType statement
+    return d
+
+
 # ------------------------------------------------------------------ oracles
 def pair_bound(typ, a, b, prec, prec2):
     """exact upper bound (Fraction) on |a-b| that is necessary for SUCCESS under any reading"""
@@ -169,7 +179,11 @@ def analyse_pointwise(c):
 
 
 def check_pointwise(case):
-    cmps = case["cmps"]
+    # metamorphic sub-claim: every comparison type is a function of |a-b|, |a| and |b| only, so the verdicts must
+    # not change when both data columns are negated.  The mirrored comparisons are appended to the same .check
+    # file (they also go through the one-directional oracle below)
+    n0 = len(case["cmps"])
+    cmps = list(case["cmps"]) + [negated(c, i == 0) for i, c in enumerate(case["cmps"])]
     rc, verdicts, endv, out, txt = run_tfel_check(cmps, "pw")
     classes = []
     nontrivial = False
@@ -178,13 +192,16 @@ def check_pointwise(case):
         return Result(False, "C51.pointwise.no_verdict",
                       "tfel-check gave no verdict (exit %s) for\n%s\n%s" % (rc, txt, out[-1500:]))
     sticky = False
+    stickies = []
     for i, (c, v) in enumerate(zip(cmps, verdicts)):
         k = KEYNAME[c["type"]]
         an = analyse_pointwise(c)
-        classes.append("type." + k)
+        if i < n0:
+            classes.append("type." + k)
         shared = bool(c.get("reuse") and i > 0 and cmps[i - 1]["type"] == c["type"])
         sticky = shared and (sticky or not verdicts[i - 1])  # an earlier comparison under the same @TestType failed
-        if shared:
+        stickies.append(sticky)
+        if shared and i < n0:
             classes.append("shared_testtype" + (".after_failure" if sticky else ""))
         where = "comparison %d (%s, prec %s %s) of\n%s" % (i + 1, c["type"], c["prec"], c.get("prec2"), txt)
         if an["nonfinite"]:
@@ -231,6 +248,19 @@ def check_pointwise(case):
         if c["type"] == "Absolute" and not v:
             fails.append(("C51.shared_testtype.failed_after_failure" if sticky else "C51.absolute.within_failed",
                           "FAILED although every |a-b| <= prec: a=%s b=%s; %s" % (c["a"], c["b"], where)))
+    for i in range(n0):
+        c = cmps[i]
+        if stickies[i] or stickies[n0 + i]:
+            continue  # verdict forced by the (known) sticky failure flag of a shared Comparison object
+        if any(val(x) != 0 and math.isfinite(val(x)) for x in c["a"] + c["b"]):
+            classes.append("sign_flip")
+        if verdicts[i] != verdicts[n0 + i]:
+            fails.append(("C51.%s.sign_flip_verdict" % KEYNAME[c["type"]],
+                          "comparison %d (%s, prec %s %s, a=%s b=%s) is %s but the same comparison with both columns "
+                          "negated (comparison %d) is %s:\n%s" % (
+                              i + 1, c["type"], c["prec"], c.get("prec2"), c["a"], c["a"] if c.get("self") else c["b"],
+                              "SUCCESS" if verdicts[i] else "FAILED", n0 + i + 1,
+                              "SUCCESS" if verdicts[n0 + i] else "FAILED", txt)))
     anyfail = any(not v for v in verdicts)
     if (rc != 0) != anyfail or (endv == "SUCCESS") == anyfail:
         fails.append(("C51.exit_status",
@@ -296,14 +326,21 @@ def trapz(t, y):
 
 def check_area(case):
     c = case
-    rc, verdicts, endv, out, txt = run_tfel_check([c], "ar", area=True)
+    rc, verdicts, endv, out, txt = run_tfel_check([c, negated(c, True)], "ar", area=True)
     classes = ["area." + c["interp"], "class." + c["cls"]]
     where = "(Area, %s, prec %s, t=%s a=%s; t=%s b=%s) %s" % (c["interp"], c["prec"], c["ta"], c["a"], c.get("tb"), c.get("b"), txt)
-    if rc < 0 or rc > 1 or verdicts[0] is None:
+    if rc < 0 or rc > 1 or verdicts[0] is None or verdicts[1] is None:
         return Result(False, "C51.area.crash", "tfel-check died (exit %s) on an Area comparison %s %s" % (rc, where, out[-600:]))
     v = verdicts[0]
+    flip = None
+    if verdicts[0] != verdicts[1]:
+        # while the signed normalisation is a listed finding, its sign dependence is that very defect
+        key = "C51.area.nonpositive_reference_success" if "C51.area.nonpositive_reference_success" in KNOWN \
+            else "C51.area.sign_flip_verdict"
+        flip = Result(False, key, "Area comparison is %s but the same curves negated are %s %s" % (
+            "SUCCESS" if verdicts[0] else "FAILED", "SUCCESS" if verdicts[1] else "FAILED", where))
     if c.get("self") or (c["ta"] == c["tb"] and c["a"] == c["b"]):
-        if not v:
+        if not v or not verdicts[1]:
             return Result(False, "C51.area.identical_failed", "FAILED although the curves are identical " + where)
         return Result(True, nontrivial=False, classes=classes)
     # same grid, finite values: the area between the curves does not depend on the interpolation
